@@ -464,6 +464,64 @@ func checkC02(c *km.Ctx) {
 					caOK = true
 				}
 			}
+			if !pairOK {
+				// signer and CA certificate handed back as one record: both are read from the record one call returned
+				recOf := func(v ssa.Value) *ssa.Call {
+					v = km.Unwrap(v)
+					if o := km.CellOrigin(v); o != nil {
+						v = km.Unwrap(o)
+					}
+					if u, isU := v.(*ssa.UnOp); isU && u.Op == token.MUL {
+						if o := km.CellOrigin(u.X); o != nil {
+							v = km.Unwrap(o)
+						}
+					}
+					rc2, ri := callRes(v)
+					if rc2 != nil && ri == 0 && km.CalleeFull(rc2.Common()) == RS+"getSignerX509CAForPublic" {
+						return rc2
+					}
+					return nil
+				}
+				if base, _, isF := km.FieldOfLoad(km.Unwrap(a[3])); isF && km.NamedTypeOf(a[3].Type()) == "crypto.Signer" {
+					if prov := recOf(base); prov != nil {
+						sc, pairOK = prov, true
+						// the CA: ParseCertificate of the record's DER field, directly or in a method of the record
+						if cc, ci2 := callRes(km.Unwrap(a[2])); cc != nil && ci2 == 0 {
+							if km.CalleeFull(cc.Common()) == "crypto/x509.ParseCertificate" {
+								if b2, _, isF2 := km.FieldOfLoad(km.Unwrap(cc.Common().Args[0])); isF2 && recOf(b2) == prov {
+									caOK = true
+								}
+							} else if g := km.StaticCallee(cc.Common()); g != nil && len(g.Blocks) > 0 && c.InModule(g) && len(cc.Common().Args) == 1 && recOf(cc.Common().Args[0]) == prov {
+								all, nRet := true, 0
+								km.Instrs(g, func(in ssa.Instruction) {
+									if ret, isRet := in.(*ssa.Return); isRet && len(ret.Results) > 0 {
+										nRet++
+										pc, pi := callRes(km.Unwrap(ret.Results[0]))
+										good := pc != nil && pi == 0 && km.CalleeFull(pc.Common()) == "crypto/x509.ParseCertificate"
+										if good {
+											b3, _, isF3 := km.FieldOfLoad(km.Unwrap(pc.Common().Args[0]))
+											if !isF3 {
+												good = false
+											} else {
+												bb := km.Unwrap(b3)
+												if o := km.CellOrigin(bb); o != nil {
+													bb = km.Unwrap(o)
+												}
+												_, isPar := bb.(*ssa.Parameter)
+												good = isPar
+											}
+										}
+										if !good {
+											all = false
+										}
+									}
+								})
+								caOK = all && nRet > 0
+							}
+						}
+					}
+				}
+			}
 			r.Add("R-C02-4", km.FuncName(fn), "x509: signer and CA certificate are the published pair", posOf(c, ci), "signer and CA both come from one getSignerX509CAForPublic call", sprintf("signer=%v ca=%v", pairOK, caOK), pairOK && caOK)
 		}
 	}
@@ -471,9 +529,42 @@ func checkC02(c *km.Ctx) {
 	// ---------------- R-C02-4
 	if fn := c.MustFunc("R-C02-4", "cmd/keymasterd", "(*RuntimeState).getSignerX509CAForPublic"); fn != nil {
 		for _, rc := range s.RetCases(fn) {
-			sg := isSignerLoadV(km.Unwrap(rc.Results[0]))
+			sgV, caV := km.Unwrap(rc.Results[0]), ssa.Value(nil)
+			if len(rc.Results) > 1 {
+				caV = km.Unwrap(rc.Results[1])
+			}
+			// the pair handed back as one record: the values stored into its signer and DER fields
+			if ld, isLd := sgV.(*ssa.UnOp); isLd && ld.Op == token.MUL && len(rc.Results) == 2 {
+				if al, isAl := ld.X.(*ssa.Alloc); isAl {
+					for _, ref := range *al.Referrers() {
+						fa, isFA := ref.(*ssa.FieldAddr)
+						if !isFA {
+							continue
+						}
+						for _, r2 := range *fa.Referrers() {
+							if st, isSt := r2.(*ssa.Store); isSt && st.Addr == ssa.Value(fa) {
+								switch km.NamedTypeOf(st.Val.Type()) {
+								case "crypto.Signer":
+									sgV = km.Unwrap(st.Val)
+								default:
+									if st.Val.Type().String() == "[]byte" {
+										caV = km.Unwrap(st.Val)
+									}
+								}
+							}
+						}
+					}
+				}
+			}
+			if cst, isC := sgV.(*ssa.Const); isC && cst.Value == nil && len(rc.Results) == 2 && !km.IsNilConst(rc.Results[1]) {
+				continue // the zero record of a failing return
+			}
+			sg := isSignerLoadV(sgV)
 			caLast := false
-			if u, ok := km.Unwrap(rc.Results[1]).(*ssa.UnOp); ok {
+			if caV == nil {
+				caV = sgV
+			}
+			if u, ok := caV.(*ssa.UnOp); ok {
 				if ia, ok := u.X.(*ssa.IndexAddr); ok && mentionsField(ia.X, "caCertDer") {
 					if b, ok := km.Unwrap(ia.Index).(*ssa.BinOp); ok && b.Op == token.SUB {
 						if one, ok := km.ConstInt(b.Y); ok && one == 1 {
